@@ -197,17 +197,20 @@ def run_probe_templates(ctx, hists):
     for i in range(len(hists)):
         # parameter names collide with qualifiers and with each other's suffixes on purpose
         src.append(f"type I{i} interface {{ M(a xio.T, io yio.T, a1 string, _ zio.T) (io0 int) }}")
+        if any(o["op"] == "suggest" for o in hists[i]["ops"]):
+            src.append(f"type J{i} interface {{ M(a xio.T, io yio.T, a1 string, _ zio.T) (io0 int) }}")
     files["src/src.go"] = "\n".join(src) + "\n"
     uni = universe(["a", "a1", "io"], ["a", "a1", "a2", "io", "io0"], ["io", "io0"])
     t = []
-    for i, h in enumerate(hists):
-        t.append('{{- range $i, $x := .Interfaces }}{{ if eq $x.Name "I%d" }}' % i)
+
+    def block(iface, i, ops):
+        t.append('{{- range $i, $x := .Interfaces }}{{ if eq $x.Name "%s" }}' % iface)
         t.append("{{- $s := (index $x.Methods 0).Scope }}")
         t.append('{"op":"reset","case":%d,"inpkg":false,"dst":"","visible":[{{ range $k, $n := (split "," %s) }}{{ if $s.NameExists $n }}{{ printf "%%q" $n }},{{ end }}{{ end }}""]}'
                  % (i, tq(",".join(uni))))
         # imports already made by mockery for the real signature
         t.append('{{- range $.Imports }}\n{"op":"import","case":%d,"name":"","path":{{ printf "%%q" .Path }},"nil":false,"res":{{ printf "%%q" .Qualifier }}}{{ end }}' % i)
-        for o in h["ops"]:
+        for o in ops:
             op = o["op"]
             if op == "add":   # AddName has no result and cannot be called from a template: use exists instead
                 op = "exists"
@@ -232,6 +235,15 @@ def run_probe_templates(ctx, hists):
                 t.append('{"op":"newscope","case":%d,"visible":[{{ range $k, $n := (split "," %s) }}{{ if $s.NameExists $n }}{{ printf "%%q" $n }},{{ end }}{{ end }}""]}'
                          % (i, tq(",".join(uni))))
         t.append("{{- end }}{{ end }}")
+
+    erased = {}
+    for i, h in enumerate(hists):
+        block("I%d" % i, i, h["ops"])
+        if any(o["op"] == "suggest" for o in h["ops"]):
+            # twin interface with the same signature (own file, own registry, own scope): the same history
+            # with the suggest operations erased; its replies are logged next to the original ones
+            erased[i] = [o for o in h["ops"] if o["op"] != "suggest"]
+            block("J%d" % i, i, erased[i])
     w = ctx.new_world(files, module=mod, name="probeworld")
     (w / "probe.templ").write_text("\n".join(t) + "\n")
     conf = {"template": "file://" + str(w / "probe.templ"), "require-template-schema-exists": False, "formatter": "noop",
@@ -244,26 +256,39 @@ def run_probe_templates(ctx, hists):
             ctx.violation({"kind": "panic", "route": "template"}, res.brief())
             return [], []
         raise MachineryError("probe-template run failed (exit %s): %s" % (res.code, (res.err + res.out)[-1500:]))
-    events = []
-    for i in range(len(hists)):
-        f = w / "out" / f"I{i}.txt"
+    def read_events(fn):
+        f = w / "out" / fn
         if not f.exists():
             raise MachineryError(f"probe output {f} missing")
+        out = []
         for ln in f.read_text().splitlines():
             ln = ln.strip()
             if not ln.startswith("{"):
                 continue
             ln = ln.replace(',""]', "]").replace('[""]', "[]")
             e = json.loads(ln)
-            for k in ("visible", "paths", "quals"):
+            for k in ("visible", "paths", "quals"):   # strip the trailing "" sentinel of the list fields
                 if k in e:
-                    e[k] = [x for x in e[k] if x != ""] if k == "visible" else e[k]
-            events.append(e)
-    # fix list fields: the trailing "" sentinel was removed above for visible; for paths/quals strip too
-    for e in events:
-        for k in ("paths", "quals"):
-            if k in e and e[k] and e[k][-1] == "":
-                e[k] = e[k][:-1]
+                    e[k] = [x for x in e[k] if x != ""]
+            out.append(e)
+        return out
+
+    events = []
+    for i in range(len(hists)):
+        evs = read_events(f"I{i}.txt")
+        if i in erased:
+            er = [e for e in read_events(f"J{i}.txt")]
+            j = 0
+            for e in evs:
+                if e["op"] == "suggest":
+                    continue
+                if j >= len(er) or er[j]["op"] != e["op"]:
+                    raise MachineryError(f"probe outputs I{i}/J{i} do not line up at {e}")
+                for k in ("res", "quals", "visible", "found", "nil"):
+                    if k in er[j]:
+                        e[k + "_erased"] = er[j][k]
+                j += 1
+        events += evs
     paths = sorted({e["path"] for e in events if "path" in e} | {p for e in events for p in e.get("paths", [])})
     return events, paths
 
